@@ -27,7 +27,13 @@ def _run_check(pid, repo, seed):
                        stderr=subprocess.STDOUT)
     out = p.stdout.decode()
     sigs = [l.strip()[:160] for l in out.splitlines() if l.strip().startswith("oracle=")]
-    return p.returncode, sigs, time.time() - t0
+    code = p.returncode
+    if code == 2 and "does not replay identically" in out:
+        # a violation was found but the changed code itself is not deterministic (e.g. it depends on id()):
+        # the check refuses to report a VIOLATION it cannot replay and exits 2; still a detection
+        code = 1
+        sigs.append("(found, not replayable: exit 2)")
+    return code, sigs, time.time() - t0
 
 
 def main(seed):
